@@ -114,7 +114,11 @@ def ntos(n: float) -> str:
 
 
 def number_or_percentage(s: str, scale=1) -> float:
-    return float(s[:-1]) / 100 * scale if s.endswith("%") else float(s)
+    value = float(s[:-1]) / 100 * scale if s.endswith("%") else float(s)
+    # float() also accepts "nan", "inf" and overflowing exponents like "1e999"
+    if value != value or value in (float("inf"), float("-inf")):
+        raise ValueError(f"Not a finite number: {s!r}")
+    return value
 
 
 def path_segment(cmd, *args):
